@@ -172,7 +172,7 @@ CHECKS['C02'] = dict(
     budget={'quick': 300, 'thorough': 2400},
 )
 
-_RIT = H('h_riter.c', 'asan', exclude=['mtbl/iter.c', 'mtbl/block.c', 'mtbl/reader.c'])
+_RIT = H('h_riter.c', 'asan', exclude=['mtbl/iter.c', 'mtbl/block.c', 'mtbl/reader.c'], blackbox=dict())
 CHECKS['C03'] = dict(
     level=MC, engine='bfs',
     technique='explicit-state breadth-first search over the real reader iterator objects: states are operation histories replayed on fresh iterators, deduplicated by a canonical hash of the private iterator fields plus the reference model state, run to a fixpoint; plus an undeduplicated depth-bounded tree and a two-iterator product',
@@ -191,7 +191,7 @@ CHECKS['C03'] = dict(
     budget={'quick': 400, 'thorough': 2400},
 )
 
-_MRG = H('h_merger.c', 'asan', exclude=['mtbl/iter.c', 'mtbl/block.c', 'mtbl/reader.c', 'mtbl/merger.c'])
+_MRG = H('h_merger.c', 'asan', exclude=['mtbl/iter.c', 'mtbl/block.c', 'mtbl/reader.c', 'mtbl/merger.c'], blackbox=dict())
 CHECKS['C04'] = dict(
     level=MC, engine='seqx',
     technique='exhaustive enumeration of source families (every subset of a 4-key universe per source, up to 3-4 sources, reader/multi-block/invalidating user sources) drained through the real merger with a fold-tree merge function whose result reveals exactly which source values were combined',
@@ -360,19 +360,20 @@ CHECKS['C12'] = dict(
     budget={'quick': 600, 'thorough': 3000},
 )
 
-_FS = H('h_fileset.c', 'asan', exclude=['mtbl/fileset.c', 'libmy/my_fileset.c', 'mtbl/merger.c'], extra=[('merger_peek.c', None)])
+_FS = H('h_fileset.c', 'asan', exclude=['mtbl/fileset.c', 'libmy/my_fileset.c', 'mtbl/merger.c'], extra=[('merger_peek.c', None)],
+        blackbox=dict(exclude=[], extra=[], tu_flags={'mtbl/fileset.c': ['-Dclock_gettime=vf_clock_gettime'], 'libmy/my_fileset.c': ['-Dclock_gettime=vf_clock_gettime']}))
 
 CHECKS['C07'] = dict(
     level=MC, engine='bfs',
-    technique='explicit-state breadth-first search over histories of the real fileset (two handles sharing one fileset, real setfile and table files on tmpfs, harness-owned monotonic clock): states deduplicated by a canonical hash of the private fileset fields plus the reference state; oracle = interval of setfile versions the view may legitimately reflect; AddressSanitizer over every history',
-    text='Alphabet: rewrite the setfile to one of six versions (one with a missing and a non-table file, one with an absolute path, one that still lists a previously loaded file which has meanwhile been deleted from disk), advance the clock by 1 s or interval+1 s (each also in a variant whose nanosecond part restarts below every earlier reading), and for handles A and B=dup(A, filename/reader filter): reload, reload_now, open an iterator, step it, close it, observe (open+drain+close), plus destroy(A). Configurations: reload intervals {2, 0, NEVER} per handle, merge function on/off, cold and warm start. After every open the content (decoded to the set of files it merges) must equal the filtered merge of SOME setfile version between the one current at the latest mandatory reload point (initial load, reload_now, deferred reload_now, interval expired since the last moment a reload could have happened) and the one current at the last moment a reload could have happened at all; never older, and fixed while any iterator is open. Kept iterators must return their original snapshot step by step whatever happens in between.',
+    technique='explicit-state breadth-first search over histories of the real fileset (two handles sharing one fileset, real setfile and table files on tmpfs, harness-owned monotonic clock): states deduplicated by a canonical hash of the private fileset fields plus the reference state (if that private view does not compile against the tree: no deduplication, shallower depth); oracle = interval of setfile versions the view may legitimately reflect; AddressSanitizer over every history',
+    text='Alphabet: rewrite the setfile to one of seven versions (one with a missing and a non-table file, one with an absolute path, one that still lists a previously loaded file which has meanwhile been deleted from disk, one that names the same file twice - relative and absolute; how often such a file contributes is not judged), advance the clock by 1 s or interval+1 s (each also in a variant whose nanosecond part restarts below every earlier reading), and for handles A and B=dup(A, filename/reader filter): reload, reload_now, open an iterator, step it, close it, observe (open+drain+close), plus destroy(A). Configurations: reload intervals {2, 0, NEVER} per handle, merge function on/off, cold and warm start. After every open the content (decoded to the set of files it merges) must equal the filtered merge of SOME setfile version between the one current at the latest mandatory reload point (initial load, reload_now, deferred reload_now, interval expired since the last moment a reload could have happened) and the one current at the last moment a reload could have happened at all; never older, and fixed while any iterator is open. Kept iterators must return their original snapshot step by step whatever happens in between.',
     jobs=[dict(name='fileset-bfs', spec=_FS, args=lambda tier: ['6', '7'] if tier == 'thorough' else ['5'])],
     states_key='states', transitions_key='transitions', traces_key='executions',
     rule='a state = canonical hash of (shared fileset counters and stamps, my_fileset entries, per-handle stamp equality and merger sources, open iterators, reference interval, capped clock ages); signature = (configuration, first operation)',
-    bounds={'quick': 'histories of depth<=5 (plus 2 warm-up operations in warm configurations), 4 configurations, ~20 operations enabled per state (6 setfile versions, 4 clock steps, 5 operations per handle, destroy)',
+    bounds={'quick': 'histories of depth<=5 (plus 2 warm-up operations in warm configurations), 4 configurations, ~21 operations enabled per state (7 setfile versions, 4 clock steps, 5 operations per handle, destroy)',
             'thorough': 'depth<=6 for all 8 configurations, then depth 7 as far as the budget allows (iterative deepening; maxima.max_depth_completed_by_this_shard in the evidence)'},
     nonzero=['states', 'transitions', 'searches'],
-    assumptions=['the monotonic clock strictly increases between two calls', 'distinct setfile versions have distinct (inode, mtime seconds)', 'reloading earlier than required is accepted'],
+    assumptions=['no two readings of the monotonic clock are equal (CLOCK_MONOTONIC has nanosecond resolution and the library reads it around file I/O); the nanosecond part may step backwards', 'distinct setfile versions have distinct (inode, mtime seconds)', 'reloading earlier than required is accepted'],
     budget={'quick': 300, 'thorough': 3000},
 )
 
